@@ -164,6 +164,15 @@ _add("C02", H("H05_merge", quick={"wall": "150s", "shards": 16, "param": "maxDoc
 # two vector fields with different metrics in one segment, both orders of the builder's field map
 _add("C14", H("H14_metrics", common={"vectors": True}), H("H14_metrics", common={"vectors": True, "reverse-maps": True}))
 
+# 127 / 128 / 129 fields (field count, field table and field ids cross the one-byte varint boundary)
+_add("C04", H("H04_manyfields", quick={"wall": "200s", "shards": 3, "shard-depth": 1}))
+# second-generation merges in the quick tier (single-hit entries and byte-copied postings merged again)
+_add("C06", H("H06_merge", quick={"wall": "150s", "shards": 16, "param": "maxDocs=1,tieReopen=1,lite=1,gen2=1"}, thorough={"skip": True}))
+# the exclusion path with four hits (Advance to a non-first hit of a later chunk)
+_add("C07", H("H07_seq", quick={"wall": "140s", "shards": 8, "param": "fixN=4,maxL=1,maxLocs=0,variants=1,allHits=1,allFlags=1"}, thorough={"wall": "1500s", "shards": 16, "param": "fixN=5,maxL=2,maxLocs=0,variants=1,allHits=1,allFlags=1"}))
+# three synonym documents (thesauri may alternate between documents)
+_add("C12", H("H12_syn", quick={"wall": "140s", "shards": 16, "param": "fixSyn=3,emptyTerm=0"}, thorough={"skip": True}))
+
 # thorough wall budgets: the first budgeted run of a property gets 600 s, the others 240 s (a thorough check
 # also repeats the quick configurations, which are exhaustive inside their bounds)
 for _pid in PLAN:
